@@ -25,6 +25,12 @@ ORD_KINDS = {
     # tuples shaped like the keyword records of syntax-tree nodes
     "tup-record": ((("id", 7), ("name", "bob")), [(("id", 7), ("name", "bob")), (("id", 7),), (("id", 7), ("name", "bo")), (("id", 8), ("name", "bob")), (("id", 7), ("name", "bob"), ("z", 0))]),
     "tup-name": ((("name", "g"),), [(("name", "g"),), (("name", "f"),), (("name",),), (("name", "g"), ("a", "b"))]),
+    # strings whose first / last character is a quote of the other style (a careless un-quoting strips them)
+    "quote-edged": ("users'", ["users'", "users", "'users'", "users''", "'users", "Users'"]),
+    "quote-edged2": ('"beta"', ['"beta"', "beta", '"beta', "'beta'", 'beta"']),
+    # a literal spelled exactly like the field it is compared with / like the other field (f and g are the field names of E-op)
+    "fieldname": ("f", ["f", "g", "ff", "", "F"]),
+    "fieldname2": ("g", ["g", "f", "gg", " g"]),
     "tup12mixed": ((1, "a", 2.5, "b", 3, "c", 4, "d", 5, "e", 6, "f"), [(1, "a", 2.5, "b", 3, "c", 4, "d", 5, "e", 6, "f"), (1, "a")]),
 }
 
